@@ -89,7 +89,8 @@ def execute(case, seed, choices=None):
             bad('C12.b', 'tb-depth-unbounded', '%d nodes for depth %d' % (len(base_chain), case['depth']))
         if len(base_chain) >= DEFAULT_MAX_FRAMES:
             k.probe('truncated')
-        if '_raise_at' not in base_text and want_type is not RecursionError:
+        # the text names the frame that raised (its source line), however deep it is
+        if ('_raise_at' not in base_text or 'raise exc' not in base_text) and want_type is not RecursionError:
             bad('C12.a', 'traceback-text-lacks-raising-frame', base_text[-200:])
         cur = einfo
         for trip in range(case['trips'] + 1):
